@@ -80,6 +80,25 @@ def generate(rng, tier):
     for h in ["0000", "0080", "8000", "0100", "ff00", "ff7f", "ffff", "0081", "1000", "000000", "00000080"]:
         cases.append(("script.encode_pushdata", [h]))
     P("4effffffff"); P("4effffffff00"); P("4e00000080+r:00:10"); P("4dffff+r:01:100")
+    # every single-byte script; PUSHDATA1 with every declared length 0..255 (exact payload and one byte short);
+    # every direct push length exact / one short / followed by an opcode
+    for a in range(256):
+        P("%02x" % a)
+        P("4c%02x+l:%d:%d" % (a, a + 3, a))
+        if a:
+            P("4c%02x+l:%d:%d" % (a, a + 3, a - 1))
+    for n in range(1, 76):
+        P("%02x+l:%d:%d" % (n, n + 5, n)); P("%02x+l:%d:%d" % (n, n + 5, n - 1)); P("%02x+l:%d:%d+ac" % (n, n + 5, n))
+    for n in [0, 1, 255, 256, 257, 511, 512, 513, 4095, 4096, 32767, 32768, 65280]:
+        P("4d%s+l:%d:%d" % (n.to_bytes(2, "little").hex(), n + 9, n))
+        P("4e%s+l:%d:%d" % (n.to_bytes(4, "little").hex(), n + 9, n))
+    # each IF-family opener inside each reader position, closed and unclosed
+    for A in IFS:
+        for B in IFS:
+            a, b = "%02x" % A, "%02x" % B
+            for body in (a + b + "6868", a + "67" + b + "6868", a + b + "676868", a + "67" + b + "67" + "6868", a + b + "68", a + "67" + b + "68",
+                         a + b + "6867" + "68", a + "51" + b + "52" + "68" + "67" + b + "53" + "67" + "54" + "68" + "68"):
+                P(body)
     # grammar-based
     ngram = 250 if tier == "quick" else 3000
     for i in range(ngram):
